@@ -41,7 +41,7 @@ func ps(notCovered string, rules ...string) propSpec {
 // property -> rules. The explanation in the evidence is composed from the clause of every rule that ran.
 var props = map[string]propSpec{
 	"C01": ps("the soundness theorem itself (that checker rules and the reduction rules of three evaluators fit together for every program); user-registered functions", "EQ-FIELDS", "TC", "KINDSW", "LAYOUT", "BC-6", "SIG-1", "EFFECT-6", "BC-1", "BC-7", "SIBLING-9", "EFFECT-2", "CONV", "UN-1"),
-	"C02": ps("'stops exactly when the semantics says undefined' for % on fractional/huge operands and non-finite indices (float->int results are run-time values); nil dereference in general", "EFFECT-2", "TOTAL-1", "SIG-1", "SIBLING-4", "SIBLING-8", "BC-1", "BC-2", "BC-3", "BC-5", "BC-6", "KINDSW", "LAYOUT", "IDENT-2", "SIBLING-7", "CONV"),
+	"C02": ps("'stops exactly when the semantics says undefined' for % on fractional/huge operands and non-finite indices (float->int results are run-time values); nil dereference in general", "EFFECT-2", "TOTAL-1", "SIG-1", "SIBLING-4", "SIBLING-8", "BC-1", "BC-2", "BC-3", "BC-5", "BC-6", "KINDSW", "LAYOUT", "IDENT-2", "SIBLING-7", "CONV", "ENVCHK"),
 	"C03": ps("equality of results for programs whose meaning depends on user functions; closure compiler and interpreter are compared by shape, not by normal form", "SIBLING-1", "SIBLING-2", "SIBLING-3", "SIBLING-4", "SIBLING-6", "SIBLING-7", "SIBLING-8", "SIBLING-9", "POPORDER-1", "LAZY", "BC-1", "BC-2", "BC-5", "BC-6", "BC-7", "EFFECT-5"),
 	"C04": ps("IEEE arithmetic, the tolerance comparison, rune counting, set semantics, strtotime (a C library), literal decoding: values are not computed by static analysis; only that the VM twin of each built-in is the same expression, that integer rendering is guarded, and that every built-in is registered", "SIBLING-2", "INTGUARD-1", "INTGUARD-2", "SIG-1", "SIG-2", "SETORD-1", "SPEC-1", "SPEC-2", "BC-1", "BC-7", "IDENT-2", "IDENT-1"),
 	"C05": ps("completeness/soundness of Unify as an algorithm (C17); the 'if and only if' as a whole", "TC", "EQ-FIELDS", "UN-1", "KEY-1", "KINDSW", "PAIR-1", "SIBLING-9", "DS~DS-2"),
